@@ -13837,8 +13837,13 @@ This indicates a bug inside LDK. Please report this error at https://github.com/
 						);
 						let responses = try_channel_entry!(self, peer_state, res, chan_entry);
 						let mut channel_update = None;
+						let mut shutdown = None;
 						if let Some(msg) = responses.shutdown_msg {
-							peer_state.pending_msg_events.push(MessageSendEvent::SendShutdown {
+							// Our retransmitted `shutdown` must follow any updates we retransmit below,
+							// as it did when we first sent them. A peer which sees our `shutdown` first
+							// may begin `closing_signed` negotiation before learning of an HTLC we are
+							// about to retransmit, failing the channel.
+							shutdown = Some(MessageSendEvent::SendShutdown {
 								node_id: counterparty_node_id.clone(),
 								msg,
 							});
@@ -13875,6 +13880,9 @@ This indicates a bug inside LDK. Please report this error at https://github.com/
 						);
 						debug_assert!(htlc_forwards.is_empty());
 						debug_assert!(decode_update_add_htlcs.is_none());
+						if let Some(shutdown) = shutdown {
+							peer_state.pending_msg_events.push(shutdown);
+						}
 						if let Some(upd) = channel_update {
 							peer_state.pending_msg_events.push(upd);
 						}
